@@ -573,6 +573,16 @@ def rotation_for(rng, api, order=None):
     if r < 0.15:
         return gen.so3(rng)
     if api == 'tr2rpy':
+        if 0.6 <= r < 0.72:
+            # two of the three angles at right angles at once (roll and yaw at +-90 deg, 0 or 180 deg, exactly or 1e-14 .. 1e-9 off), the
+            # pitch anywhere: the four matrix elements a pitch formula may divide by are then all tiny or all equal; half of these
+            # matrices carry the rounding noise of a product (as a value that came through a quaternion or a chain does)
+            sp = lambda: float([PI / 2, -PI / 2, 0.0, PI][rng.integers(4)] + (0.0 if rng.random() < 0.4 else gen.sign(rng) * gen.logu(rng, 1e-14, 1e-9)))
+            R_ = rpy_ref(sp(), ang(rng), sp(), order)
+            if rng.random() < 0.5:
+                N_ = gen.so3(rng)
+                R_ = N_ @ (N_.T @ R_)
+            return R_
         p = near(rng, [PI / 2, -PI / 2]) if r < 0.6 else ang(rng)
         return rpy_ref(ang(rng), p, ang(rng), order)
     if api == 'tr2eul':
